@@ -422,3 +422,147 @@ func TestVerifC01(t *testing.T) {
 		vfC01Run(t, k, c)
 	}
 }
+
+// TestVerifC01ConcurrentAuth: two (or three) authentication requests IN FLIGHT AT ONCE on one
+// connection — the second arrives while the authenticator is still deciding the first. This cannot
+// run in a bubble (the second request waits on the handler's mutex, which synctest does not treat as
+// durably blocked, so virtual time would stop), so it runs on simnet in real time. Real-time sleeps
+// only orchestrate the overlap (counted in ev_overlap_achieved); every verdict comes from the order
+// of events in the log: at most one Authenticate call is accepted per connection, none is made after
+// acceptance, and nothing is proxied before it.
+func TestVerifC01ConcurrentAuth(t *testing.T) {
+	k := vfNewKit(t, "C01", "c01-concurrent-auth")
+	defer k.Finish()
+	n := k.N(12, 120)
+	for i := 0; i < n; i++ {
+		caseID := fmt.Sprintf("c01c-%d", i)
+		if rc := k.ReplayCase(); rc != "" && rc != caseID {
+			continue
+		}
+		r := k.Rand(caseID)
+		k.Eval()
+		w, err := vfNewWorld(vfServerOpts{Latency: time.Duration(1+r.Intn(3)) * time.Millisecond})
+		if err != nil {
+			t.Fatalf("harness: server: %v", err)
+		}
+		w.Out.OnTCP = func(addr string) (net.Conn, error) {
+			pt := vfNewPipeTarget()
+			w.onClose(func() { _ = pt.Harness.Close() })
+			return pt.serverSide, nil
+		}
+		raw, err := w.RawClient()
+		if err != nil {
+			w.Close()
+			t.Fatalf("harness: raw client: %v", err)
+		}
+		firstGood := r.Intn(3) != 0
+		extra := 1 + r.Intn(2)
+		type res struct {
+			who  string
+			resp vfResp
+		}
+		done := make(chan res, 4)
+		first := "hold:ok:u1"
+		if !firstGood {
+			first = "hold:bad-first"
+		}
+		go func() { done <- res{"first", raw.AuthReq(first, "70000")} }()
+		// wait (real time, bounded) until the authenticator holds the first request
+		held := false
+		for spin := 0; spin < 2000 && !held; spin++ {
+			for _, e := range w.Log.Snapshot() {
+				if e.Kind == "auth_held" && e.Tag == raw.Tag {
+					held = true
+				}
+			}
+			if !held {
+				time.Sleep(time.Millisecond)
+			}
+		}
+		var creds []string
+		for j := 0; j < extra; j++ {
+			cred := fmt.Sprintf("ok:u%d", 2+j)
+			if r.Intn(3) == 0 {
+				cred = fmt.Sprintf("bad-%d", j)
+			}
+			creds = append(creds, cred)
+			go func() { done <- res{cred, raw.AuthReq(cred, "1000000")} }()
+		}
+		// a stream fired during the overlap must not be proxied before an acceptance either
+		st, _ := raw.ProxyStream("c1x900.verif:80")
+		time.Sleep(60 * time.Millisecond) // let the later requests reach the server while the first is held
+		callsDuringHold := 0
+		for _, e := range w.Log.Snapshot() {
+			if e.Kind == "auth_call" && e.Tag == raw.Tag {
+				callsDuringHold++
+			}
+		}
+		w.Auth.Release(raw.Tag)
+		var results []res
+		for j := 0; j < 1+extra; j++ {
+			select {
+			case x := <-done:
+				results = append(results, x)
+			case <-time.After(20 * time.Second):
+				k.Inconclusive("auth request did not return within 20 s real time: " + caseID)
+			}
+		}
+		if st != nil {
+			st.CancelRead(0)
+			_ = st.Close()
+		}
+		time.Sleep(30 * time.Millisecond)
+		evs := w.Log.Snapshot()
+		w.Close()
+		if held {
+			k.Count("ev_overlap_achieved", 1)
+			k.Nontrivial(fmt.Sprintf("%v/%v/%d", firstGood, creds, callsDuringHold))
+		}
+		rep := map[string]any{"case_id": caseID, "first": first, "others": creds, "tag": raw.Tag}
+		okSeen, calls := -1, 0
+		for idx, e := range evs {
+			k.Count("ev_"+e.Kind, 1)
+			if e.Tag != raw.Tag && e.Tag != "" {
+				continue
+			}
+			switch e.Kind {
+			case "auth_call":
+				calls++
+				if okSeen >= 0 {
+					k.Violation("server:auth-reevaluated", rep, "Authenticate called (event %d) after the connection was accepted (event %d)", idx, okSeen)
+				}
+			case "auth_ok":
+				if okSeen >= 0 {
+					k.Violation("server:auth-accepted-twice", rep, "two authentication requests in flight at once were BOTH evaluated and accepted on one connection (events %d and %d)", okSeen, idx)
+				} else {
+					okSeen = idx
+				}
+			case "ob_tcp", "el_tcpreq", "ob_udp", "el_udpreq":
+				if okSeen < 0 {
+					k.Violation("server:proxy-before-auth", rep, "%s at event %d before any accepted authentication", e.Kind, idx)
+				}
+			case "el_connect":
+				k.Count("ev_connect_events", 1)
+			}
+		}
+		nConnect := 0
+		for _, e := range evs {
+			if e.Kind == "el_connect" && e.Tag == raw.Tag {
+				nConnect++
+			}
+		}
+		if nConnect > 1 {
+			k.Violation("server:connected-twice", rep, "the connection was reported connected %d times (negotiation ran more than once)", nConnect)
+		}
+		for _, x := range results {
+			if okSeen >= 0 && x.resp.Err == nil && x.resp.Status != 233 && strings.HasPrefix(x.who, "ok:") {
+				// a good credential racing with an accepted one: must be answered 233 (already authenticated) or
+				// be the accepted one itself
+				k.Violation("server:reauth-not-233", rep, "request %q answered %d on a connection that was accepted", x.who, x.resp.Status)
+			}
+		}
+		if i < 2 {
+			k.Sample(map[string]any{"case": rep, "auth_calls": calls, "calls_while_first_was_held": callsDuringHold})
+		}
+	}
+}
